@@ -5,10 +5,12 @@ package gmesim
 
 import (
 	"context"
+	"encoding/json"
 	"errors"
 	"fmt"
 	"io"
 	"net"
+	"os"
 	"runtime"
 	"sort"
 	"strings"
@@ -697,7 +699,54 @@ func waitBaseline(g0, m0 int) bool {
 }
 
 // Run executes one case.
+// Timers of the MultiEndpoints (recovery windows, delayed switches) go through the package clock hook: every timer is
+// tagged with the case that armed it, and a callback that runs after the Close() of that case's object has returned is
+// counted ("no goroutine started by the object outlives it").
+var (
+	timerCase   atomic.Int64 // id of the running case
+	closedCase  atomic.Int64 // id of the last case whose Close() has returned
+	lateTimers  atomic.Int64 // callbacks that ran after that
+	knownOnce   sync.Map
+	clockHooked sync.Once
+)
+
+func hookClock() {
+	clockHooked.Do(func() {
+		multiendpoint.VerifSetClock(time.Now, func(d time.Duration, f func()) multiendpoint.VerifTimer {
+			id := timerCase.Load()
+			return time.AfterFunc(d, func() {
+				if id > 0 && closedCase.Load() >= id {
+					lateTimers.Add(1)
+				}
+				f()
+			})
+		})
+	})
+}
+
+// knownFinding returns the text of the open finding with that id (known_findings.json), or "".
+func knownFinding(id string) string {
+	b, err := os.ReadFile(os.Getenv("VERIF_KNOWN"))
+	if err != nil {
+		return ""
+	}
+	var k struct {
+		Findings []struct{ Property, Status, ID, What string }
+	}
+	if json.Unmarshal(b, &k) != nil {
+		return ""
+	}
+	for _, x := range k.Findings {
+		if x.ID == id && x.Status == "open" {
+			return x.What
+		}
+	}
+	return ""
+}
+
 func Run(c *Case, props map[string]bool) (res Result) {
+	hookClock()
+	caseID := timerCase.Add(1)
 	if c.Stale > 0 {
 		return RunStaleMonitor(c, props)
 	}
@@ -1137,6 +1186,23 @@ func Run(c *Case, props map[string]bool) (res Result) {
 	}
 	if !waitBaseline(g0, m0) {
 		w.fail("C16", "close-goroutines", "goroutines after Close: %d, before construction: %d (monitors still running: %d)", runtime.NumGoroutine(), g0, monitors()-m0)
+	}
+	// timers armed before or by Close() (a pool that reports SHUTDOWN starts a recovery window) fire now
+	lateTimers.Store(0)
+	closedCase.Store(caseID)
+	if w.maxTimerMs > 0 && props["C16"] {
+		time.Sleep(time.Duration(w.maxTimerMs+3) * time.Millisecond)
+		if n := lateTimers.Swap(0); n > 0 {
+			w.labels["timer-callbacks-after-close"]++
+			if k := knownFinding("multiendpoint-timers-outlive-close"); k != "" {
+				if _, done := knownOnce.LoadOrStore(k, true); !done {
+					fmt.Printf("KNOWN-FINDING: property=C16 %s\n", k)
+				}
+				w.labels["case-ends-in-a-known-finding"]++
+			} else {
+				w.fail("C16", "close-timers", "%d timer callback(s) of the object's MultiEndpoints ran after Close() had returned (up to %d ms later): Close stops the monitors, not the recovery and switching timers", n, w.maxTimerMs)
+			}
+		}
 	}
 	w.labels["closed"]++
 	return
